@@ -28,6 +28,7 @@ mod c15;
 mod c17;
 mod spsser;
 mod c19;
+mod grouping;
 
 use common::Opts;
 use std::path::PathBuf;
@@ -65,6 +66,7 @@ fn main() {
         | "c15" => c15::run(&opts),
         | "c17" => c17::run(&opts),
         | "c19" => c19::run(&opts),
+        | "grp" => grouping::run(&opts),
         | other => {
             eprintln!("unknown property {other}");
             2
